@@ -191,7 +191,8 @@ PROPS = {
     },
     'C13': {
         'id': 'C13', 'area': 'pipe',
-        'theorems': ['Props.C13_safety', 'Props.C13_complete', 'Props.C13_no_deadlock', 'Props.C13_terminates'],
+        'theorems': ['Props.C13_safety', 'Props.C13_complete', 'Props.C13_no_deadlock', 'Props.C13_terminates',
+                     'Props.C13_loss_never_blocks', 'Props.C13_loss_terminates'],
         'n_quick': 600, 'n_thorough': 20000,
     },
     'C09': {
